@@ -109,6 +109,7 @@ void verif_wait_hook(void) __attribute__((weak));
 // through verif_wait_hook, then return notified or time out with the virtual clock moved to the deadline.
 static int native_wait(pthread_cond_t *cond, pthread_mutex_t *mutex, const struct timespec *abstime) {
     init();
+    long long late = (abstime && g_late_max > 0) ? 1000 * ranged_input("late", 0, g_late_max) : 0;  // drawn at entry, like symx
     g_wait_cv = cond;
     g_notified = false;
     pthread_mutex_unlock(mutex);
@@ -118,7 +119,6 @@ static int native_wait(pthread_cond_t *cond, pthread_mutex_t *mutex, const struc
     if (g_notified) { g_notified = false; return 0; }
     if (!abstime) { fprintf(g_trace, "CRASH deadlock: untimed condition wait that nobody can notify\n"); finish(5); }
     long long deadline = (long long)abstime->tv_sec * 1000000000LL + abstime->tv_nsec;
-    long long late = g_late_max > 0 ? ranged_input("late", 0, g_late_max) : 0;
     g_clock = (g_clock > deadline ? g_clock : deadline) + late;
     return ETIMEDOUT;
 }
